@@ -102,6 +102,7 @@ type Run struct {
 	clock    []*Term
 	lastPanic string
 	bypass   map[*ssa.Function]bool
+	tabulate map[*ssa.Function]bool
 }
 
 type intModeT struct{}
@@ -148,6 +149,7 @@ func (r *Run) addPC(c *Term) {
 	}
 	r.ts.noteDomain(c)
 	r.ts.noteConstEq(c)
+	r.ts.refineFromFact(c)
 	if c.op == OpEq && c.args[0].w > 0 {
 		ok, contra := r.ts.noteEquality(c.args[0], c.args[1])
 		if contra {
@@ -437,7 +439,15 @@ func (r *Run) feasible(c *Term) bool {
 	tq := time.Now()
 	res, _ := r.query(c, false, nil)
 	if d := time.Since(tq); d > 2*time.Second && os.Getenv("GOSYM_SLOWQ") != "" {
-		fmt.Fprintf(os.Stderr, "[slowq] %.1fs %s at %s cond=%.300s\n", d.Seconds(), res, r.curPos(), c.String())
+		extra := ""
+		for _, a := range c.args {
+			for _, b := range append([]*Term{a}, a.args...) {
+				if b.w == IntW && !b.IsConst() {
+					extra += fmt.Sprintf(" [%s in %s..%s]", b.ref(), b.lo.String(), b.hi.String())
+				}
+			}
+		}
+		fmt.Fprintf(os.Stderr, "[slowq] %.1fs %s at %s cond=%.300s%.300s choices=%v\n", d.Seconds(), res, r.curPos(), c.String(), extra, r.choices)
 	}
 	if res == "unknown" {
 		r.h.noteOutcomeMsg("solver-unknown", r.curPos())
@@ -462,6 +472,9 @@ func (r *Run) branch(c *Term) bool {
 		return c.k != 0
 	}
 	ts := r.ts
+	if os.Getenv("GOSYM_PATHS") != "" {
+		fmt.Fprintf(os.Stderr, "[dec] pos=%d replay=%v at %s cond=%.150s\n", r.pos, r.pos < len(r.prefix), r.curPos(), c.String())
+	}
 	if r.pos < len(r.prefix) {
 		d := r.prefix[r.pos]
 		if d.Kind != 'b' {
@@ -525,6 +538,9 @@ func (r *Run) assertBranch(notc *Term) (bool, map[string]uint64) {
 	res, m := r.query(notc, true, nil)
 	if res == "unknown" {
 		r.h.noteOutcomeMsg("solver-unknown", r.curPos())
+		if os.Getenv("GOSYM_SLOWQ") != "" {
+			fmt.Fprintf(os.Stderr, "[assert-unknown] at %s path=%s notc=%.1500s\n", r.curPos(), r.pathString(), notc.String())
+		}
 	}
 	if res == "sat" && r.ts.abstracted {
 		// the model was found under the product abstraction: look for one that respects the real products
@@ -948,7 +964,7 @@ func (h *HarnessRun) runPath(sv *Solver, prefix []Decision) {
 		choices: map[string]int{}, nameCount: map[string]int{},
 		maxSteps: 3000000, unwind: 4096, allocLimit: 1 << 16, symIndexFork: 0,
 		mutex: map[string]int{}, hashes: map[*Obj]*hashGhost{}, ghostVal: map[string]Value{},
-		objSeq: 1 << 20, bypass: map[*ssa.Function]bool{},
+		objSeq: 1 << 20, bypass: map[*ssa.Function]bool{}, tabulate: map[*ssa.Function]bool{},
 	}
 	outcome := "ok"
 	msg := ""
@@ -985,6 +1001,9 @@ func (h *HarnessRun) runPath(sv *Solver, prefix []Decision) {
 		r.callFunction(h.fn, nil, nil)
 	}()
 	r.endSession()
+	if os.Getenv("GOSYM_PATHS") != "" {
+		fmt.Fprintf(os.Stderr, "[path] %s %s %s queued=%d\n", outcome, r.pathString(), msg, r.queued)
+	}
 	h.mu.Lock()
 	h.outcomes[outcome]++
 	if msg != "" {
